@@ -21,6 +21,10 @@ package router
 //@   ensures[C05] err == nil ==> !old(mapHas(r.routes, rid)) && mapHas(r.routes, rid) && mapGet(r.routes, rid) == route &&
 //@                  forall k int :: k != rid ==> mapHas(r.routes, k) == old(mapHas(r.routes, k)) && mapGet(r.routes, k) == old(mapGet(r.routes, k))
 //@   ensures[C05] err == nil && isIBCAdapter(route) ==> rid == cast(route, "*controller/adapter.IBCAdapter").BaseController.id
+//@   ensures[C05] err == nil && isCCTPCtl(route) ==> rid == cast(route, "*controller/forwarding.CCTPController").BaseController.id
+//@   ensures[C05] err == nil && isHypCtl(route) ==> rid == cast(route, "*controller/forwarding.HyperlaneController").BaseController.id
+//@   ensures[C05] err == nil && isIntCtl(route) ==> rid == cast(route, "*controller/forwarding.InternalController").BaseController.id
+//@   ensures[C05] err == nil && isFeeCtl(route) ==> rid == cast(route, "*controller/action.FeeController").BaseController.id
 //@   ensures[C05] err != nil ==> forall k int :: mapHas(r.routes, k) == old(mapHas(r.routes, k)) && mapGet(r.routes, k) == old(mapGet(r.routes, k))
 //@   ensures[C05] err == nil ==> exists id int :: !old(mapHas(r.routes, id)) && mapHas(r.routes, id) && mapGet(r.routes, id) == route &&
 //@                  forall k int :: k != id ==> mapHas(r.routes, k) == old(mapHas(r.routes, k)) && mapGet(r.routes, k) == old(mapGet(r.routes, k))
